@@ -1,5 +1,5 @@
 \* thorough exhaustive: 2 transactions x (Begin + <=3 Set/Get/Commit) = 4 operations each, interleaved in every order,
-\* 12-entry write menu, 1 snap, 1 revision, <=2 snapshot operations anywhere
+\* 12-entry write menu, 1 snap, 1 revision, <=1 snapshot operation anywhere
 INIT Init
 NEXT Next
 CONSTANTS
@@ -12,7 +12,7 @@ CONSTANTS
   GetPaths <- GetOne
   ChkPaths <- PathsUpTo3
   MaxOps = 3
-  MaxRevOps = 2
+  MaxRevOps = 1
 SYMMETRY TxnSym
 VIEW mcview
 INVARIANTS ReadYourWrites NoLostUpdate SnapshotExact NoNullsCommitted TypeOK
